@@ -39,7 +39,7 @@ TRUSTED = ["tools/extractaudit (go/ast -> def-use facts as expression texts; wha
            "tools/extractflow (go/ast -> Lean term; output is human-readable, every line carries the Go source line)",
            "Relic.Model.SignFlow semantics of the primitives (events of Sign/PublishAudit/AppendTo/ResponseWrite)",
            "fake AMQP broker and fake token in harness/c06"]
-UNPROVED = ["marshal_keeps_members_full"]
+UNPROVED = []
 IMPL_PARALLEL = 8
 IMPL_TIMEOUT = 1200
 EXTRA_MODULES = ()
